@@ -18,7 +18,9 @@ EP = "lcm.entry_point"
 
 def _closures(prog, factory, name):
     fr = prog.frame(factory)
-    cids = sorted(c for cs in fr.closures.values() for c in cs)  # all nested defs, whatever their name
+    from lcmsa.match import product_closures
+
+    cids = product_closures(prog, fr)  # the nested defs that are returned, whatever their name
     out = []
     for cid in cids:
         info, _snap, conds = prog.closures[cid]
